@@ -20,6 +20,7 @@ import (
 
 	"github.com/deadsy/sdfx/render"
 	"github.com/deadsy/sdfx/sdf"
+	v3 "github.com/deadsy/sdfx/vec/v3"
 )
 
 type faultVec struct {
@@ -28,6 +29,8 @@ type faultVec struct {
 	Limit int64  `json:"limit"` // RLIMIT_FSIZE in bytes (mode fsize)
 	Items int    `json:"items"`
 	Batch int    `json:"batch"`
+	Real  string `json:"real,omitempty"` // "" = scripted producer; else a real renderer: mcu:<cells> | mco:<cells> | msu:<cells> | msq:<cells>
+	Dims  [3]int `json:"dims,omitempty"` // real uniform renders: bounding box size in cells (lattice = dims+2 points per axis)
 }
 
 type faultObs struct {
@@ -41,6 +44,8 @@ type faultObs struct {
 	WallMs    int      `json:"wallms"`
 	FileSize  int64    `json:"filesize"`
 	ChildExit int      `json:"childexit"`
+	Panicked  bool     `json:"panicked"` // the child died with a Go panic / runtime fault other than the deadlock report
+	Fault     string   `json:"fault"`
 }
 
 // plainRenderer writes `items` numbered items in batches and closes the buffer (single producer).
@@ -91,6 +96,14 @@ func c12Child(args []string) error {
 	items, _ := strconv.Atoi(args[3])
 	batch, _ := strconv.Atoi(args[4])
 	path := args[5]
+	real := ""
+	var dims [3]int
+	if len(args) >= 10 {
+		real = args[6]
+		dims[0], _ = strconv.Atoi(args[7])
+		dims[1], _ = strconv.Atoi(args[8])
+		dims[2], _ = strconv.Atoi(args[9])
+	}
 	var mu sync.Mutex
 	say := func(s string) {
 		mu.Lock()
@@ -119,6 +132,29 @@ func c12Child(args []string) error {
 		if err := syscall.Setrlimit(syscall.RLIMIT_FSIZE, &lim); err != nil {
 			return err
 		}
+	}
+	if real != "" {
+		// a real renderer on a box-shaped solid whose bounding box is dims cells
+		var cells int
+		fmt.Sscanf(real[4:], "%d", &cells)
+		bx, _ := sdf.Box3D(v3.Vec{X: float64(dims[0]), Y: float64(dims[1]), Z: float64(dims[2])}, 0)
+		ci, _ := sdf.Circle2D(1)
+		switch {
+		case strings.HasPrefix(real, "mcu:") && sink == "stl":
+			render.ToSTL(bx, path, render.NewMarchingCubesUniform(cells))
+		case strings.HasPrefix(real, "mcu:") && sink == "3mf":
+			render.To3MF(bx, path, render.NewMarchingCubesUniform(cells))
+		case strings.HasPrefix(real, "mco:"):
+			render.ToSTL(bx, path, render.NewMarchingCubesOctree(cells))
+		case strings.HasPrefix(real, "msu:"):
+			render.ToSVG(ci, path, render.NewMarchingSquaresUniform(cells))
+		case strings.HasPrefix(real, "msq:"):
+			render.ToDXF(ci, path, render.NewMarchingSquaresQuadtree(cells))
+		default:
+			return fmt.Errorf("real %q with sink %q", real, sink)
+		}
+		say("caller.return 0")
+		return nil
 	}
 	switch sink {
 	case "stl":
@@ -150,7 +186,11 @@ func runFault(v faultVec, dir string, watchdog time.Duration) faultObs {
 		os.WriteFile(f, []byte("x"), 0644)
 		path = filepath.Join(f, "out."+v.Sink)
 	}
-	cmd := exec.Command(os.Args[0], "c12-child", v.Sink, v.Mode, fmt.Sprint(v.Limit), fmt.Sprint(v.Items), fmt.Sprint(v.Batch), path)
+	cargs := []string{"c12-child", v.Sink, v.Mode, fmt.Sprint(v.Limit), fmt.Sprint(v.Items), fmt.Sprint(v.Batch), path}
+	if v.Real != "" {
+		cargs = append(cargs, v.Real, fmt.Sprint(v.Dims[0]), fmt.Sprint(v.Dims[1]), fmt.Sprint(v.Dims[2]))
+	}
+	cmd := exec.Command(os.Args[0], cargs...)
 	cmd.Env = append(os.Environ(), "GOTRACEBACK=all")
 	stdout, _ := cmd.StdoutPipe()
 	var stderr bytes.Buffer
@@ -203,9 +243,7 @@ func runFault(v faultVec, dir string, watchdog time.Duration) faultObs {
 			cmd.Process.Kill()
 			<-done
 		}
-		dump := stderr.String()
-		o.Blocked = strings.Contains(dump, "chan send") &&
-			(strings.Contains(dump, "Triangle3Buffer") || strings.Contains(dump, "Line2Buffer"))
+		o.Blocked = blockedInLibrary(stderr.String())
 		o.ChildExit = -1
 	} else {
 		err := cmd.Wait()
@@ -220,8 +258,20 @@ func runFault(v faultVec, dir string, watchdog time.Duration) faultObs {
 			// in a process with nothing else to run the Go runtime itself reports the hang:
 			// "fatal error: all goroutines are asleep - deadlock!" with the blocked send in the dump
 			dump := stderr.String()
-			o.Blocked = strings.Contains(dump, "all goroutines are asleep") && strings.Contains(dump, "chan send") &&
-				(strings.Contains(dump, "Triangle3Buffer") || strings.Contains(dump, "Line2Buffer"))
+			o.Blocked = strings.Contains(dump, "all goroutines are asleep") && blockedInLibrary(dump)
+			if !o.Blocked {
+				for _, mark := range []string{"panic: ", "fatal error: "} {
+					if i := strings.Index(dump, mark); i >= 0 {
+						o.Panicked = true
+						end := strings.IndexByte(dump[i:], '\n')
+						if end < 0 {
+							end = len(dump) - i
+						}
+						o.Fault = dump[i : i+end]
+						break
+					}
+				}
+			}
 		}
 	}
 	o.WallMs = int(time.Since(t0) / time.Millisecond)
@@ -232,6 +282,25 @@ func runFault(v faultVec, dir string, watchdog time.Duration) faultObs {
 		o.Events = append(o.Events[:20], o.Events[len(o.Events)-20:]...)
 	}
 	return o
+}
+
+// blockedInLibrary: the goroutine dump shows a goroutine blocked on a channel or a WaitGroup /
+// semaphore inside the library (the verdict on a hang never rests on time alone).
+func blockedInLibrary(dump string) bool {
+	for _, g := range strings.Split(dump, "\n\n") {
+		if !strings.Contains(g, "github.com/deadsy/sdfx/") {
+			continue
+		}
+		head := g
+		if i := strings.IndexByte(g, '\n'); i >= 0 {
+			head = g[:i]
+		}
+		if strings.Contains(head, "chan send") || strings.Contains(head, "chan receive") ||
+			strings.Contains(head, "semacquire") || strings.Contains(head, "sync.WaitGroup.Wait") || strings.Contains(head, "select") {
+			return true
+		}
+	}
+	return false
 }
 
 func c12Replay(args []string) error {
@@ -321,6 +390,10 @@ func c12Goroutines(args []string) error {
 		{"ToDXF/quadtree", func(i int) { render.ToDXF(ci, filepath.Join(dir, "a.dxf"), render.NewMarchingSquaresQuadtree(20)) }},
 		{"ToSVG/uniform", func(i int) { render.ToSVG(ci, filepath.Join(dir, "a.svg"), render.NewMarchingSquaresUniform(20)) }},
 		{"ToSTL/nodir", func(i int) { render.ToSTL(sp, filepath.Join(dir, "nodir", "a.stl"), render.NewMarchingCubesOctree(6)) }},
+		{"ToSTL/devfull/octree", func(i int) { render.ToSTL(sp, "/dev/full", render.NewMarchingCubesOctree(24)) }},
+		{"ToSTL/devfull/uniform", func(i int) { render.ToSTL(sp, "/dev/full", render.NewMarchingCubesUniform(16)) }},
+		{"To3MF/nodir", func(i int) { render.To3MF(sp, filepath.Join(dir, "nodir", "a.3mf"), render.NewMarchingCubesOctree(6)) }},
+		{"ToSVG/nodir", func(i int) { render.ToSVG(ci, filepath.Join(dir, "nodir", "a.svg"), render.NewMarchingSquaresUniform(20)) }},
 	}
 	marks := map[int]bool{1: true, 2: true, 4: true, 8: true, 16: true}
 	for _, kd := range kinds {
